@@ -234,17 +234,11 @@ func (in *Interp) load(l Loc) Value {
 		}
 		return av
 	case SymElem:
-		// ite chain
-		var r *Term
-		for i := x.Len - 1; i >= 0; i-- {
-			ev := x.Arr.E[x.Off+i].(*Cell).V.(*Term)
-			if r == nil {
-				r = ev
-			} else {
-				r = Ite(Eq(x.Idx, Const(64, uint64(i))), ev, r)
-			}
+		ts := make([]*Term, x.Len)
+		for i := 0; i < x.Len; i++ {
+			ts[i] = x.Arr.E[x.Off+i].(*Cell).V.(*Term)
 		}
-		return r
+		return in.iteChain(ts, x.Idx)
 	case NilPtr:
 		in.end("panic", "nil pointer dereference")
 	}
